@@ -211,6 +211,15 @@ def r4(ck, F):
         n_ok = 0
         ws = F.adts.get("tracing_appender::worker::WorkerState")
         terminal_idx = {i for i, v in enumerate(ws["variants"]) if v["name"] in ("Shutdown", "Disconnected")} if ws else set()
+        # `state == WorkerState::X` compares with a promoted `&WorkerState::X`: which variant each promoted stands for
+        prom_variant = {}
+        for pr in w.raw.get("promoted", []):
+            for st_ in pr.get("stmts", []):
+                agg = (st_.get("rv") or {}).get("agg") or {}
+                if agg.get("adt") == "tracing_appender::worker::WorkerState":
+                    prom_variant[pr["idx"]] = agg.get("variant")
+        import re as _re
+        flush_err_paths = 0
         for p in PathEval(w).run():
             if p.end != "return":
                 continue
@@ -219,6 +228,22 @@ def r4(ck, F):
             # which state the batch ended in, when the path branches on it (discriminant of WorkerState)
             st = [c[1] for c in p.conds if show(c[0]).startswith("discr((branch(handle_") and isinstance(c[1], int)]
             terminal = bool(st) and st[-1] in terminal_idx
+            # ... or compares it with named variants (`state == WorkerState::Shutdown || ..`)
+            ruled_out = set()
+            for c in p.conds:
+                m = _re.match(r"^(eq|ne)\(\(branch\(handle_.*, (promoted\[\d+\])\)$", show(c[0]))
+                if m and prom_variant.get(m.group(2)) and c[1] is not None:
+                    is_eq = (m.group(1) == "eq") == (c[1] != 0)
+                    if is_eq:
+                        terminal = prom_variant[m.group(2)] in ("Shutdown", "Disconnected")
+                    else:
+                        ruled_out.add(prom_variant[m.group(2)])
+            non_terminal = (bool(st) and st[-1] not in terminal_idx) or {"Shutdown", "Disconnected"} <= ruled_out
+            if r.startswith("from_residual((branch(flush(") or r.startswith("map(flush(arg1.writer)") and "discr(flush(" in " ".join(show(c[0]) for c in p.conds):
+                flush_err_paths += 1
+                if not non_terminal:
+                    ok, why = False, ("the end-of-batch flush error is returned on a path that has not established the batch ended in a non-terminal state: a flush "
+                                      "error at shutdown hides Shutdown/Disconnected from the worker loop, which keeps waiting (or spins) and never drops the writer")
             if r.startswith("Result::Ok"):
                 n_ok += 1
                 if not flushed:
@@ -233,10 +258,6 @@ def r4(ck, F):
                 ok, why = False, "unexpected return %s" % r
         # "stop" must reach the worker loop whatever the final flush does: with `flush()?` before `Ok(state)` a failing
         # flush turns Shutdown / Disconnected into Err, which the loop treats as "carry on": the writer is never released
-        plain_q = any(show(p.ret).startswith("from_residual((branch(flush(") for p in PathEval(w).run() if p.end == "return")
-        if plain_q:
-            ok, why = False, ("the end-of-batch flush is `?`-propagated before the state is returned: a flush error at shutdown hides Shutdown/Disconnected from "
-                              "the worker loop, which keeps waiting (or spins) and never drops the writer")
         # errors of the handlers propagate (`?`): the branch on their result leads to from_residual
         if ok and n_ok:
             ck.ok("C15.R4", "work: flush on every batch; errors propagate, but never instead of Shutdown/Disconnected", fn=w.path)
